@@ -25,8 +25,11 @@ CONFIG = {
             "collection of exactly bound and of bound+1 minimal elements (nil / smallest value satisfying `required`; Payset 100000 incl.) "
             "plus the header alone, accept expected at bound (counted in stats.json allocbound_sites); instances resized by reflection to "
             "exactly the declared allocbound and to allocbound+1 at the bounded sites of random instances; random byte strings; inner transactions nested 1..400 "
-            "(thorough ..5000) levels around the AllowableDepth limit and raw nested headers; the duplicate-key map merge.  spec_ok (on the "
-            "implementation only): no panic, and on success every collection of the decoded object within its declared allocbound.  corr: "
+            "(thorough ..5000) levels around the AllowableDepth limit and raw nested headers; every recursion point of the schemas (9 cycles "
+            "SignedTxnWithAD/EvalDelta via 9 roots) unrolled 1..300 (5000 for SignedTxnWithAD/SignedTxnInBlock/EvalDelta) times in the "
+            "map form AND in every positional (struct-from-array) form combination of the struct levels on the cycle; the duplicate-key map merge.  spec_ok (on the "
+            "implementation only): no panic, and on success every collection of the decoded object within its declared allocbound and its non-zero parts nested at most "
+            "AllowableDepth called types deep.  corr: "
             "same outcome class and same decoded tree as the model (modulo normal form).  Non-trivial = input inside the model (not Unm); "
             "distinct = distinct case lines.",
     "exhaustive": {"quick": False, "thorough": False},
